@@ -66,5 +66,54 @@ pub fn run(_cfg: &Config, s: &mut Session, cx: &mut Ctx) {
         table!(s, cx, font, file, b"GPOS", "Gpos", w::gpos::Gpos, r::gpos::Gpos);
         table!(s, cx, font, file, b"GSUB", "Gsub", w::gsub::Gsub, r::gsub::Gsub);
         table!(s, cx, font, file, b"meta", "Meta", w::meta::Meta, r::meta::Meta);
+        layout_mutations(s, cx, &font, &file);
     }
+}
+
+/// structured mutations of real-world layout tables in owned form: every count below is recomputed by the writer
+/// (array_len), so each mutated value must still round-trip
+fn layout_mutations(s: &mut Session, cx: &mut Ctx, font: &FontRef, file: &str) {
+    use read_fonts::tables as r;
+    use write_fonts::tables as w;
+    macro_rules! mutate {
+        ($tag:expr, $name:expr, $owned:ty, $read:ty) => {{
+            if let Some(data) = font.table_data(Tag::new($tag)) {
+                if let Ok(Ok(v)) = catch(|| <$owned as FontRead>::read(FontData::new(data.as_bytes()))) {
+                    let mut muts: Vec<(&str, $owned)> = vec![];
+                    let mut m = v.clone();
+                    m.lookup_list.lookups.pop();
+                    muts.push(("drop-last-lookup", m));
+                    let mut m = v.clone();
+                    m.lookup_list.lookups.clear();
+                    muts.push(("no-lookups", m));
+                    let mut m = v.clone();
+                    m.feature_list.feature_records.truncate(1);
+                    muts.push(("one-feature", m));
+                    let mut m = v.clone();
+                    m.script_list.script_records.clear();
+                    muts.push(("no-scripts", m));
+                    let mut m = v.clone();
+                    if let Some(l) = m.lookup_list.lookups.first().cloned() {
+                        m.lookup_list.lookups.push(l);
+                    }
+                    muts.push(("duplicate-first-lookup", m));
+                    let mut m = v.clone();
+                    m.feature_variations.clear();
+                    muts.push(("no-feature-variations", m));
+                    let mut m = v.clone();
+                    for f in m.feature_list.feature_records.iter_mut() {
+                        f.feature.lookup_list_indices.clear();
+                    }
+                    muts.push(("features-without-lookups", m));
+                    for (what, m) in muts {
+                        let label = format!("corpus-mut:{}:{}:{}", file, $name, what);
+                        s.count(&format!("corpus-mutation:{}", what));
+                        rt!(s, cx, $name, $owned, $read, &label, &m);
+                    }
+                }
+            }
+        }};
+    }
+    mutate!(b"GSUB", "Gsub", w::gsub::Gsub, r::gsub::Gsub);
+    mutate!(b"GPOS", "Gpos", w::gpos::Gpos, r::gpos::Gpos);
 }
